@@ -1,2 +1,31 @@
-From Sup Require Import Node NodeSpec.
-Theorem placeholder01 : True. Proof. exact I. Qed.
+(* C01 (node-level part) — no instance starts, stops or conciliates anything automatically unless it is the Master;
+   the Master selection rule. Property-level theorems only; proofs in proofs/NodeFsmProofs.v.
+
+   Reading guide.
+   * [c01_tokens me cur outs] : every automatic token (AutoStart, Conciliate, FailureJob, AutoStopAll) of [outs] is
+     emitted while the last published Master (initially [cur]) is [me].
+   * [sel_declared n ms] : the Masters declared by the instances seen RUNNING ([ms]) that are known identifiers;
+     [sel_pool] : these if any, else all instances seen RUNNING; [sel_cands] : the core_identifiers members of the
+     pool if any, else the pool; [is_min_nick n cands M] : M is in cands and has the lowest nick identifier. *)
+From Sup Require Import Node NodeSpec NodeFsmProofs.
+
+Theorem C01_master_only_tokens : forall n e n' outs, step n e = Ok (n', outs) ->
+  c01_tokens (n_me n) (master n) outs = true.
+Proof. exact master_only_tokens. Qed.
+
+Theorem C01_run_master_only : forall n evs, nspec_ok fl_c01 (n, evs, run n evs) = true.
+Proof. exact run_master_only. Qed.
+
+Theorem C01_select_master_rule : forall n ms n' o, master_identifiers n = Ok ms -> select_master n = Ok (n', o) ->
+  exists M, is_min_nick n (sel_cands n ms) M /\ In M (sel_pool n ms) /\ set_master n M = (n', o) /\ master n' = M.
+Proof. exact select_master_rule. Qed.
+
+(* a running Master that is the only one recognised is kept, whatever the core list / the other running instances *)
+Theorem C01_master_kept : forall n ms M n' o, master_identifiers n = Ok ms -> sel_declared n ms = [M] ->
+  select_master n = Ok (n', o) -> master n' = M.
+Proof. exact master_kept. Qed.
+
+Theorem C01_check_master_iff : forall n, check_master n = Ok true <->
+  exists rv, running_views n (n_views n) = Ok rv /\
+    (rv = [] \/ exists M, M <> 0 /\ forall js, In js rv -> sm_master (snd js) = M).
+Proof. exact check_master_iff. Qed.
